@@ -424,6 +424,26 @@ struct Exec {
             for (Res* o : results)
                 if (o->key == res->key) { emitEq(o->name, rname, o->e, res->e); STATS.hit("eq.pairs"); }
             results.push_back(res);
+            // Reach.lfp_idem (Ops/ReachLaws.lean): asking again from the answer returns the SAME edge.
+            // Only where the answer is a legal initial set (boolean sets, result forest = set forest).
+            if (FRes == FSet && S.setKind == SK_BOOL && S.tag.empty()) {
+                std::string aname = rname + ".again";
+                dd_edge again(FRes);
+                try {
+                    switch (st.alg) {
+                        case ALG_FS: apply(REACHABLE_TRAD_FS(st.fwd), res->e, R, again); break;
+                        case ALG_NOFS: apply(REACHABLE_TRAD_NOFS(st.fwd), res->e, R, again); break;
+                        default: apply(REACHABLE_SATUR(st.fwd, 1), res->e, R, again); break;
+                    }
+                    emit("op %s %s %s %s", aname.c_str(), opn.c_str(), rname.c_str(), st.b.c_str());
+                    emitTable(aname, nRes, D, again);
+                    emitEq(rname, aname, res->e, again);
+                    STATS.hit("idem.again");
+                } catch (error& e2) {
+                    emit("err %s %s %s %s %s", aname.c_str(), opn.c_str(), rname.c_str(), st.b.c_str(), errName(e2));
+                    STATS.hit(std::string("err.again.") + errName(e2));
+                }
+            }
         } catch (error& e) {
             emit("err %s %s %s %s %s", rname.c_str(), opn.c_str(), st.a.c_str(), st.b.c_str(), errName(e));
             emit("note thrown-at %s:%u", e.getFile(), e.getLine());
